@@ -10,11 +10,6 @@ namespace Simpleline.Input
 
 /-! ### `startRequest` -/
 
-/-- the application state once the request is recorded (handler cleared, request appended) -/
-def reqRecorded (A : AppSt) (ih : Nat) (requester : Src) (text : Str) : AppSt :=
-  { A with ihs := listSet A.ihs ih IHandler.cleared,
-           reqs := A.reqs ++ [{ ih := ih, requester := requester, text := text }] }
-
 theorem skip_listSet_cleared (ihs : List IHandler) (ih : Nat) :
     ((listSet ihs ih fun h => { h with received := false, value := none }).getD ih default).skip =
       (ihs.getD ih default).skip := by
@@ -259,11 +254,11 @@ theorem requested_of_newIH (c : Cfg) (source : Src) (skip : Bool) (cb : Option N
     · rename_i hp
       refine ⟨?_, ?_, ?_, ?_, ?_, Or.inr ⟨h', ?_, ?_, ?_, Or.inl ⟨?_, ?_⟩⟩⟩ <;>
         (try simp only [final_ok, reqRecorded, hih, write_ihs, write_reqs, write_L, write_stdin, write_log,
-          write_inputStack, write_processing, write_out, write_readers, write_screens]) <;> first | rfl | exact hp
+          write_inputStack, write_processing, write_out, write_readers]) <;> first | rfl | exact hp
     · rename_i hp
       refine ⟨?_, ?_, ?_, ?_, ?_, Or.inr ⟨h', ?_, ?_, ?_, Or.inr ⟨?_, ?_⟩⟩⟩ <;>
         (try simp only [final_ok, reqRecorded, hih, write_ihs, write_reqs, write_L, write_stdin, write_log,
-          write_inputStack, write_processing, write_out, write_readers, write_screens]) <;>
+          write_inputStack, write_processing, write_out, write_readers]) <;>
         first | rfl | (simpa [newIH, push] using hp)
 
 end Simpleline.Input
